@@ -11,6 +11,34 @@ import FordModel.Scope
 namespace Ford.Scope
 open Ford
 
+/-! ### use association (one USE statement, one class of names) -/
+
+/-- the items of a USE statement with both names lower-cased: (local name, name in the module) -/
+def useItems (u : Use) : List (Str × Str) := u.items.map fun lr => (lower lr.1, lower lr.2)
+
+/-- Fortran's rule (F2018 14.2.2): what the name `n` denotes in a scope by virtue of the USE
+    statement `u` of a module whose public entities are `pub`:
+    * `n` is a local name on the statement (`n => r`, or `r` itself in an ONLY list): the
+      module's entity `r`;
+    * otherwise with ONLY: nothing;
+    * otherwise without ONLY: nothing if `n` is the module's name of a renamed entity (that
+      entity is accessible by its local name only), else the module's entity `n`. -/
+def useDenotes (pub : Table) (u : Use) (n : Str) : Option Ent :=
+  match (useItems u).find? (fun lr => decide (lr.1 = n)) with
+  | some lr => tget pub lr.2
+  | none =>
+    if u.only then none
+    else if (useItems u).any (fun lr => decide (lr.2 = n)) then none
+    else tget pub n
+
+/-- the statement is one the rule above gives a unique answer for: no entity of the module is
+    given two local names, no local name is given to two entities, and (without ONLY) no local
+    name of a rename is also the name of another accessible public entity of the module -/
+def useOK (pub : Table) (u : Use) : Bool :=
+  decide ((useItems u).map (·.2)).Nodup && decide ((useItems u).map (·.1)).Nodup &&
+    (u.only || (useItems u).all fun lr =>
+      (tget pub lr.1).isNone || (useItems u).any fun lr' => decide (lr'.2 = lr.1))
+
 structure Frame where
   p : Table
   a : Table
